@@ -77,14 +77,20 @@ func vpDef(i int, cmd Cmd) *RouteDef {
 		d.Src += vpPaths[0]
 	}
 	d.Dst = vpDsts[0]
-	if i > 1 && vp.Bool("second-dst") {
+	if (rich && i > 1 || i == 3) && vp.Bool("second-dst") {
 		d.Dst = vpDsts[1]
 	}
 	if (rich && i > 1 || i == 3) && vp.Bool("weighted") {
 		d.Weight = 0.25
 	}
-	if (rich || i >= 2) && vp.Bool("tagged") {
-		d.Tags = []string{vp.String("tag")}
+	if rich || i >= 2 {
+		// none, one or two tags (selectors with several tags must match targets carrying all of them)
+		switch vp.Choice("tags", 3) {
+		case 1:
+			d.Tags = []string{vp.String("tag")}
+		case 2:
+			d.Tags = []string{vp.String("tag"), vp.String("tag")}
+		}
 	}
 	return d
 }
